@@ -1146,4 +1146,22 @@ def _unused(I, st, args, c, dest, target, span):
     raise Undecided("placeholder")
 
 
+@model("core::ops::function::FnMut::call_mut", "core::ops::function::Fn::call", "core::ops::function::FnOnce::call_once")
+def m_fn_trait_call(I, st, args, c, dest, target, span):
+    """A call through a generic `F: Fn*(..)` parameter: the callee is whatever closure / function value the argument holds."""
+    f = I.force(st, args[0])
+    guard = 0
+    while isinstance(f, VRef) and guard < 4:
+        f = I.force(st, I.load(st, f.root, f.path))
+        guard += 1
+    tup = I.force(st, args[1]) if len(args) > 1 else UNIT
+    targs = list(tup.items) if isinstance(tup, VTuple) else []
+    if not isinstance(f, (VClosure, VFn)):
+        raise Undecided("call through a generic function parameter holding %r" % (f,))
+    r = I.call_value(st, f, targs, dest, target, span)
+    if r is None:
+        return None
+    return r[1]
+
+
 from . import ppmodels as _ppmodels      # noqa: E402,F401  (sequence / string / sink models registered in front of the ones above)
